@@ -408,7 +408,7 @@ def sec_unitary(ctx, nd):
 
 
 def prop_tok(p):
-    return {"unitary": "U", "positive": "P"}.get(p, "x:" + p)
+    return {"unitary": "U", "positive": "P"}.get(p, "x:" + (p or "empty"))
 
 
 def reconstruct(alg, A, kind, d, draw_rng):
@@ -433,7 +433,9 @@ def reconstruct(alg, A, kind, d, draw_rng):
 def sec_properties(ctx, nd):
     base_sets = [[], ["unitary"], ["positive"], ["unitary", "positive"], ["bogus"], ["unitary", "bogus"],
                  ["positive", "bogus"], ["unitary", "positive", "bogus"], ["bogus", "other"], ["Unitary"],
-                 ["unitary", "unitary"], ["positive", "unitary", "positive"]]
+                 ["unitary", "unitary"], ["positive", "unitary", "positive"],
+                 # an unknown property is unknown whatever its truth value (the empty string is falsy)
+                 [""], ["", "unitary"], ["", "positive", "unitary"]]
     for alg, A in ALGS.items():
         if alg == "hrr":
             dims = list(range(1, 17)) + ([24, 32] if ctx.tier == "quick" else list(range(17, 65)))
